@@ -25,6 +25,10 @@ def nodes (l : List (Upd α)) : List Nat := l.map (·.node)
 @[simp] theorem nodes_nil : nodes ([] : List (Upd α)) = [] := rfl
 @[simp] theorem nodes_cons (u : Upd α) (l : List (Upd α)) : nodes (u :: l) = u.node :: nodes l := rfl
 
+/-- every child is within its parent. -/
+def Valid (parent : Nat → Option Nat) (le : α → α → Prop) (f : Nat → α) : Prop :=
+  ∀ c p, parent c = some p → le (f c) (f p)
+
 /-- the cache, where it has an entry, holds the content of the file. -/
 def CacheOK (s : St α) : Prop := ∀ n v, s.cache n = some v → s.files n = v
 
